@@ -339,8 +339,9 @@ class Env(object):
   """Assignment of values to expressions.  Keys are expression texts or
   matcher callables (ast -> bool).  A value may be any Python object; use
   truthy/falsy ints or bools for predicates."""
-  def __init__ (self, exact=None, matchers=None):
+  def __init__ (self, exact=None, matchers=None, call_hook=None):
     self.exact = dict(exact or {}); self.matchers = list(matchers or [])
+    self.call_hook = call_hook     # callable(ast.Call) -> (hit, value): summaries of resolved callees
   def lookup (self, e):
     t = norm(e)
     if t in self.exact: return True, self.exact[t]
@@ -432,6 +433,10 @@ _BUILTIN_VALUES = {'tuple': tuple, 'list': list, 'dict': dict, 'int': int, 'str'
 
 def _eval_call (repo, module, e, env, cls):
   fn = e.func
+  hook = getattr(env, 'call_hook', None)
+  if hook is not None:
+    hit, v = hook(e)
+    if hit: return v
   if isinstance(fn, ast.Name) and not e.keywords:
     args = [eval_env2(repo, module, a, env, cls) for a in e.args]
     if fn.id == 'len' and len(args) == 1: return len(args[0])
@@ -479,7 +484,7 @@ def _eval_struct (repo, module, e, env, cls):
   class _E(Env):
     pass
   # wrap: evaluate children with eval_env2 by pre-computing them into a derived env
-  sub = Env(dict(env.exact), list(env.matchers))
+  sub = Env(dict(env.exact), list(env.matchers), getattr(env, 'call_hook', None))
   for ch in ast.iter_child_nodes(e):
     if isinstance(ch, ast.expr):
       try: sub.exact[norm(ch)] = eval_env2(repo, module, ch, env, cls)
@@ -516,7 +521,7 @@ def paths_under (repo, module, g, env, start, stops, cls=None, limit=200, track=
   return out
 
 def _assign_env (repo, module, st, env, cls):
-  ne = Env(dict(env.exact), list(env.matchers))
+  ne = Env(dict(env.exact), list(env.matchers), getattr(env, 'call_hook', None))
   if isinstance(st, ast.Assign) and len(st.targets) == 1 and isinstance(st.targets[0], ast.Name):
     nm = st.targets[0].id
     try: val = eval_env2(repo, module, st.value, env, cls); known = True
@@ -563,3 +568,9 @@ def reach_under_cp (repo, module, g, env, cls=None, start=None, limit=400):
   for path, fe in paths_under(repo, module, g, env, start, stops, cls, limit=limit):
     seen.update(path)
   return seen
+
+def try_int (e):
+  """integer value of a literal expression (incl. unary minus), else None"""
+  b, k = linear(e, None)
+  if b is None: return k
+  return None
